@@ -281,7 +281,8 @@ func treeOracle(add func(oracle, format string, a ...any), ps []*layout.Pkg, bef
 			add("outside-allow-set", "%s changed: not an output file of a package of the run", path)
 			continue
 		}
-		if knowStarted && !startedPkgs[pathOf(p.Dir)] {
+		// (only when the run reported package starts at all: the hook is an observation aid, its absence proves nothing)
+		if knowStarted && len(startedPkgs) > 0 && !startedPkgs[pathOf(p.Dir)] {
 			add("outside-allow-set", "%s changed but package %s was never started", path, p.Dir)
 		}
 	}
